@@ -1,11 +1,13 @@
 """C12 -- persisted objects survive serialization unchanged."""
 import chan_common as cc
+import graph_rt_part
 
 def run(tier, seed):
     return cc.run_check("C12", tier, seed,
         mc_cfgs=(["ChanMC_c10.cfg", "GossipStatus:GossipStatus.cfg"], ["ChanMC_c10.cfg", "ChanMC_c10t.cfg", "GossipStatus:GossipStatus.cfg"]),
         mutant_cfgs=("GossipStatus:GossipStatusMutant.cfg",),
         mc_actions_by_module={"GossipStatus": ("Tick", "Reload", "Disconnect", "Reconnect")},
+        extra_parts=[("graph_rt", graph_rt_part.part)],
         profiles=[("reload", 2, 250), ("reload", 3, 80), ("async", 2, 60)],
         thorough_profiles=[("reload", 2, 2000), ("reload", 3, 700), ("async", 2, 500)],
         mc_actions=("MAdd", "MSendCS", "MSendRAA", "MDeliver", "MSave", "MCrash"),
@@ -16,5 +18,5 @@ def run(tier, seed):
             "behaviour of Chan.tla); monitors of closed channels are round-tripped at every block while the chain settles "
             "them (fields the library documents as in-memory only are not held against ==); a ProbabilisticScorer fed "
             "with the run's payment paths is written and re-read in fresh, decayed and re-decayed states and must "
-            "answer like the original afterwards; what a node has told the network about a channel (enabled / disabled) follows the channel's liveness across reloads within generous tick bounds (GossipStatus.tla), judged when some peer is connected to hear it; network graph round trips are checked in C17; the output sweeper is "
+            "answer like the original afterwards; what a node has told the network about a channel (enabled / disabled) follows the channel's liveness across reloads within generous tick bounds (GossipStatus.tla), judged when some peer is connected to hear it; network graph round trips are checked in C17 and, over every size of their variable-length parts (0..700 bytes, the relay limit, the wire limit), in this check's graph_rt part (GraphRtTrace.tla); the output sweeper is "
             "not covered"])
